@@ -225,6 +225,17 @@ def _enumv(x):
 
 
 def extract(o):
+    """Canonical content of a library object; anything that cannot be read as such - wrong
+    attribute types, wrong shapes, foreign objects inside - is Unextractable, never a crash."""
+    try:
+        return _extract(o)
+    except Unextractable:
+        raise
+    except Exception as e:
+        raise Unextractable(f"{type(e).__name__}: {e}")
+
+
+def _extract(o):
     t = KIND_OF_CLASS.get(type(o))
     if t is None:
         raise Unextractable(f"unexpected object {type(o).__name__}")
